@@ -1,0 +1,64 @@
+//go:build verif
+
+// Contracts for the verification machinery in /verif (comment-only; no declarations).
+//
+// C07 for the blank host (the thinnest host.Host): same statements as for the basic host. ghost.proto(s) = the protocol
+// ID recorded on stream s by a SetProtocol that returned nil (specs/libp2p.spec).
+
+package blankhost
+
+//@ func (bh *BlankHost) NewStream
+//@ prop C07
+//@ callsite NewStream#0 requires arg0 == bh.n && arg2 == p
+//@ callsite SelectOneOf#0 requires arg0 == protos && arg1 == ret(NewStream, 0, 0) && ret(NewStream, 0, 1) == nil
+//@ callsite SetProtocol#0 requires arg0 == ret(NewStream, 0, 0) && arg1 == ret(SelectOneOf, 0, 0) && ret(SelectOneOf, 0, 1) == nil
+//@ callsite AddProtocols#0 requires arg1 == p && len(arg2) == 1 && arg2[0] == ret(SelectOneOf, 0, 0)
+//@ ensures result1 == nil ==> called(NewStream, 0) && ret(NewStream, 0, 1) == nil && result0 == ret(NewStream, 0, 0)
+//@ ensures result1 == nil ==> called(SelectOneOf, 0) && ret(SelectOneOf, 0, 1) == nil && !called(Reset, 0) && !called(Reset, 1)
+//@ ensures result1 == nil ==> exists i int :: 0 <= i && i < len(protos) && ghost.proto(result0) == protos[i]
+//@ ensures result1 != nil ==> result0 == nil
+//@ ensures called(SelectOneOf, 0) && ret(SelectOneOf, 0, 1) != nil ==> result1 != nil && called(Reset, 0) && arg(Reset, 0, 0) == ret(NewStream, 0, 0)
+//@ ensures called(SetProtocol, 0) && ret(SetProtocol, 0, 0) != nil ==> result1 != nil && called(Reset, 1) && arg(Reset, 1, 0) == ret(NewStream, 0, 0)
+//@ noframe
+
+//@ func (bh *BlankHost) newStreamHandler
+//@ prop C07
+//@ callsite Negotiate#0 requires arg0 == bh.mux && arg1 == s
+//@ callsite SetProtocol#0 requires arg0 == s && arg1 == ret(Negotiate, 0, 0) && ret(Negotiate, 0, 2) == nil
+//@ callsite handle#0 requires ncalls(Negotiate, 0) == 1 && ret(Negotiate, 0, 2) == nil && handle == ret(Negotiate, 0, 1)
+//@ callsite handle#0 requires arg0 == ret(Negotiate, 0, 0) && arg1 == s && !called(Reset, 0) && !called(Reset, 1)
+//@ callsite handle#0 requires ncalls(SetProtocol, 0) == 1 && ret(SetProtocol, 0, 0) == nil && ghost.proto(s) == arg0
+//@ ensures ncalls(handle, 0) <= 1 && ncalls(Negotiate, 0) == 1
+//@ ensures ret(Negotiate, 0, 2) != nil ==> !called(handle, 0) && !called(SetProtocol, 0) && called(Reset, 0) && arg(Reset, 0, 0) == s
+//@ ensures called(SetProtocol, 0) && ret(SetProtocol, 0, 0) != nil ==> !called(handle, 0) && called(Reset, 1) && arg(Reset, 1, 0) == s
+//@ ensures called(handle, 0) ==> !called(Reset, 0) && !called(Reset, 1)
+//@ ensures !called(handle, 0) ==> (called(Reset, 0) && arg(Reset, 0, 0) == s) || (called(Reset, 1) && arg(Reset, 1, 0) == s)
+//@ noframe
+
+//@ func (bh *BlankHost) SetStreamHandler
+//@ prop C07
+//@ callsite AddHandler#0 requires arg0 == bh.mux && arg1 == pid
+//@ ensures ncalls(AddHandler, 0) == 1
+//@ noframe
+//@ closure 0
+//@ callsite SetProtocol#0 requires arg0 == rwc && arg1 == p
+//@ callsite handler#0 requires arg0 == rwc && called(SetProtocol, 0)
+//@ ensures ncalls(handler, 0) == 1 && result == nil
+//@ noframe
+
+//@ func (bh *BlankHost) SetStreamHandlerMatch
+//@ prop C07
+//@ callsite AddHandlerWithFunc#0 requires arg0 == bh.mux && arg1 == pid && arg2 == m
+//@ ensures ncalls(AddHandlerWithFunc, 0) == 1
+//@ noframe
+//@ closure 0
+//@ callsite SetProtocol#0 requires arg0 == rwc && arg1 == p
+//@ callsite handler#0 requires arg0 == rwc && called(SetProtocol, 0)
+//@ ensures ncalls(handler, 0) == 1 && result == nil
+//@ noframe
+
+//@ func (bh *BlankHost) RemoveStreamHandler
+//@ prop C07
+//@ callsite RemoveHandler#0 requires arg0 == bh.mux && arg1 == pid
+//@ ensures ncalls(RemoveHandler, 0) == 1
+//@ noframe
